@@ -31,6 +31,8 @@ def coq_parse_cases(case, obs):
 	for run in obs['runs']:
 		frags = streams.cuts_to_frags(s, run['cuts'])
 		out.append(parser_rec.coq_parse_case(case['kind'], frags, run))
+		if case.get('quiet_tie') and len(frags) <= 12:
+			out.append(parser_rec.coq_quiet_case(case['kind'], frags, run))
 	return out
 
 
